@@ -713,3 +713,50 @@ pub fn from_utf8_model(v: &[u8]) -> Result<&str, std::str::Utf8Error> {
 pub fn never_interrupted(_e: &io::Error) -> bool {
     false
 }
+
+// ---------------------------------------------------------------------------------------------
+// Model of http::header::HeaderName::from_bytes (stub) for the names used by the enumerated heads.
+// The real function did not finish symbolic execution within 300 s even on a constant 6-byte name
+// (table-mapped copy into a MaybeUninit scratch buffer followed by an ~80-way slice match).  The
+// model is exact on the names listed here and refuses (harness error) anything else, so it cannot
+// silently mis-model an input.  Header-name parsing itself is the http crate's and is trusted.
+
+fn name_is(src: &[u8], lower: &[u8]) -> bool {
+    if src.len() != lower.len() {
+        return false;
+    }
+    let mut i = 0;
+    while i < src.len() {
+        if ascii_lower(src[i]) != lower[i] {
+            return false;
+        }
+        i += 1;
+    }
+    true
+}
+
+pub fn header_name_model(src: &[u8]) -> Result<http::header::HeaderName, http::header::InvalidHeaderName> {
+    use http::header::*;
+    if name_is(src, b"content-length") {
+        Ok(CONTENT_LENGTH)
+    } else if name_is(src, b"transfer-encoding") {
+        Ok(TRANSFER_ENCODING)
+    } else if name_is(src, b"content-encoding") {
+        Ok(CONTENT_ENCODING)
+    } else if name_is(src, b"content-type") {
+        Ok(CONTENT_TYPE)
+    } else if name_is(src, b"set-cookie") {
+        Ok(SET_COOKIE)
+    } else if name_is(src, b"location") {
+        Ok(LOCATION)
+    } else if name_is(src, b"server") {
+        Ok(SERVER)
+    } else if name_is(src, b"connection") {
+        Ok(CONNECTION)
+    } else if name_is(src, b"bad name") || name_is(src, b"") || name_is(src, b"a b") {
+        // names with a blank (or empty) are invalid field names
+        Err(unsafe { std::mem::transmute::<(), InvalidHeaderName>(()) })
+    } else {
+        panic!("verif: header name outside the modelled set");
+    }
+}
